@@ -1,10 +1,119 @@
-import ApiFu.C07.Model
-import ApiFu.C07.Spec
+/-
+  C07 — property theorems about the scanner model (`Model.lean`, the Go scanner after the C07 patches)
+  against the reference lexer and algorithms of `Spec.lean` (written from the June-2018 grammar).
+  All statements are for every source text; "valid UTF-8" is `∀ r ∈ src, r < badBase`.
+-/
+import ApiFu.C07.Lemmas
+import ApiFu.C07.LemmasScan
+import ApiFu.C07.LemmasBlock
 
 namespace ApiFu.C07
 
-/-- placeholder while the end-to-end pipeline is brought up -/
-theorem kind_code_injective (a b : Kind) (h : a.code = b.code) : a = b := by
-  cases a <;> cases b <;> simp [Kind.code] at h <;> rfl
+/-! ## Block strings -/
+
+/-- **blockString_eq_spec** — for every raw value (any code points, any mixture of CR, LF, CRLF, blank
+    and whitespace-only lines) the transliterated Go `blockStringValue` returns exactly what the
+    specification's BlockStringValue algorithm returns: lines split at line terminators, the common
+    indent of the non-blank lines after the first removed from every line after the first (a shorter
+    line becomes empty — patch 02), leading and trailing blank lines removed, joined by LF. -/
+theorem blockString_eq_spec (raw : List Nat) : blockStringValue raw = Spec.blockStringValue raw :=
+  blockStringValue_eq raw
+
+/-- Non-vacuity / the F-07b witness: the short whitespace-only line becomes empty. -/
+example : blockStringValue [10, 32, 32, 32, 32, 97, 10, 32, 32, 10, 32, 32, 32, 32, 98, 10] = [97, 10, 10, 98] := by
+  decide
+
+/-! ## Progress and termination -/
+
+/-- **scanner_progress** — every iteration of `Scan` entered with input left consumes at least one
+    element, never more than there are, and accounts for every element it consumes (`off + remaining`
+    is constant). This is the termination measure of `Scan` and of `for s.Scan()`. -/
+theorem scanner_progress (s : St) (h : s.rest ≠ []) :
+    s.off < (scanToken s).2.2.off ∧
+    (scanToken s).2.2.rest.length < s.rest.length ∧
+    (scanToken s).2.2.off + (scanToken s).2.2.rest.length = s.off + s.rest.length := by
+  have a := scanToken_adv s h
+  exact ⟨a.off_lt, a.length_lt, a.adv.total⟩
+
+/-- **no_consume_at_eof** — the state after an iteration of `Scan` is reached from the state before it
+    by `consumeRune` steps taken only when a rune is left (and `errorf` steps): the Go scanner never
+    executes `consumeRune` at the end of the input, where it would add 0 to the offset but still
+    increment the column. Errors are only ever appended. -/
+theorem no_consume_at_eof (s : St) (h : s.rest ≠ []) :
+    Adv s (scanToken s).2.2 ∧ ∃ es, (scanToken s).2.2.errs = s.errs ++ es :=
+  ⟨(scanToken_adv s h).adv, (scanToken_adv s h).adv.errs_prefix⟩
+
+/-- **loops_exit** — the model's `for` loops run on fuel (the number of elements left). None of them
+    ever stops because the fuel ran out: on exit the Go loop condition is false. -/
+theorem loops_exit :
+    (∀ p s, whileCond p (consumeWhile p s) = false) ∧
+    (∀ s, commentCond (consumeComment s) = false) ∧
+    (∀ isBlock x, x.broke = false → strCond (loop strCond (strStep isBlock) x.st.rest.length x) = false) :=
+  ⟨consumeWhile_exits, consumeComment_exits, strLoop_exits⟩
+
+/-- **scan_fuel_irrelevant** — `Scan()` gives the same answer for every fuel above the number of
+    elements left; in particular it never returns `false` (`none`) for lack of fuel. -/
+theorem scan_fuel_irrelevant (b : Bool) (f1 f2 : Nat) (s : St) (h1 : s.rest.length < f1) (h2 : s.rest.length < f2) :
+    scan b f1 s = scan b f2 s :=
+  scan_fuel b f1 f2 s h1 h2
+
+/-- **scan_stops_only_at_end** — `Scan()` returns false only when the whole input has been consumed, and
+    the `for s.Scan()` loop ends with nothing left (no element is silently dropped at the end). -/
+theorem scan_stops_only_at_end (b : Bool) (src : List Nat) :
+    (∀ s s', scan b (s.rest.length + 1) s = (none, s') → s'.rest = []) ∧
+    (scanLoop b (src.length + 1) (St.init src)).2.rest = [] := by
+  constructor
+  · intro s s' h
+    have := scan_spec b (s.rest.length + 1) s (by omega)
+    rw [h] at this
+    exact this.2
+  · exact (scanLoop_spec b src (src.length + 1) (St.init src) (by simp [St.init]) (Inv.init src)).2.1
+
+/-! ## Positions and extents -/
+
+/-- **position_correct** — every token's reported (line, column) is the position of its first element as
+    the reference computes it from the consumed prefix alone: line = 1 + number of line terminators
+    ending before the token, where LF, CR (not followed by LF) and CRLF each count once; column = 1 +
+    number of elements since the last of them. For every text, valid UTF-8 or not, in both modes. -/
+theorem position_correct (b : Bool) (src : List Nat) :
+    ∀ t ∈ (scanAll b src).1, (t.line, t.col) = Spec.position src t.off := by
+  intro t ht
+  have h := scanLoop_spec b src (src.length + 1) (St.init src) (by simp [St.init]) (Inv.init src)
+  unfold scanAll at ht
+  split at ht
+  rename_i ts sf hres
+  rw [hres] at h
+  exact (h.2.2.1 t ht).2.2.2.1
+
+/-- Non-vacuity: CRLF counts once, CR alone and LF alone count once (tokens `{`, CRLF, `a`, CR, `b`, LF, `c`). -/
+example : (scanAll true [123, 13, 10, 97, 13, 98, 10, 99]).1.map (fun t => (t.off, t.line, t.col)) =
+    [(0, 1, 1), (1, 1, 2), (3, 2, 1), (4, 2, 2), (5, 3, 1), (6, 3, 2), (7, 4, 1)] := by
+  decide
+
+/-- **error_positions** — every recorded error carries the position of some offset of the text. -/
+theorem error_positions (b : Bool) (src : List Nat) :
+    ∀ e ∈ (scanAll b src).2, ∃ off, off ≤ src.length ∧ (e.line, e.col) = Spec.position src off := by
+  have h := scanLoop_spec b src (src.length + 1) (St.init src) (by simp [St.init]) (Inv.init src)
+  have := h.1.errs_pos (Inv.init src) (by simp [St.init])
+  unfold scanAll
+  split
+  rename_i ts sf hres
+  rw [hres] at this
+  exact this
+
+/-- **token_extents** — tokens are non-empty, lie inside the text, come in increasing order without
+    overlap, are never INVALID, and ignored kinds appear only in `ScanIgnored` mode. -/
+theorem token_extents (b : Bool) (src : List Nat) :
+    (∀ t ∈ (scanAll b src).1, 1 ≤ t.len ∧ t.off + t.len ≤ src.length ∧ t.kind ≠ .invalid ∧
+        (t.kind.isIgnored = true → b = true)) ∧
+    (scanAll b src).1.Pairwise (fun a c => a.off + a.len ≤ c.off) := by
+  have h := scanLoop_spec b src (src.length + 1) (St.init src) (by simp [St.init]) (Inv.init src)
+  unfold scanAll
+  split
+  rename_i ts sf hres
+  rw [hres] at h
+  refine ⟨fun t ht => ?_, h.2.2.2⟩
+  have := h.2.2.1 t ht
+  exact ⟨this.2.1, this.2.2.1, this.2.2.2.2.1, this.2.2.2.2.2⟩
 
 end ApiFu.C07
